@@ -29,6 +29,7 @@ type c20Opts struct {
 	closeInCB  bool  // OnData consumes and then closes the stream (first call)
 	lazyClient bool  // every flush of the client may land at any moment (one deviation per flush placed)
 	rhythm     bool  // the client flushes message k+1 as soon as OnData has consumed message k (request after request)
+	reuse      bool  // OnData releases what it read with ReleaseReadAndReuse (the read buffer becomes the write buffer)
 	slowCB     bool  // OnData takes time (1 virtual ms) before it consumes: other threads run meanwhile by default
 }
 
@@ -67,7 +68,11 @@ func c20Body(o c20Opts) func() {
 					if err == nil {
 						rc.got = append(rc.got, b...)
 					}
-					r.ReleasePreviousRead()
+					if o.reuse {
+						s.ReleaseReadAndReuse()
+					} else {
+						r.ReleasePreviousRead()
+					}
 					if o.closeInCB && rc.calls == 1 {
 						s.Close()
 						closeReturned = true
@@ -164,6 +169,8 @@ func TestVerif_C20(t *testing.T) {
 		// "data that arrives just as the callback returns": each message is flushed the moment the previous one was consumed
 		{Name: "next-message-as-callback-returns-slow-callback", Bound: 2, BoundT: 3, Body: c20Body(c20Opts{sizes: []int{4, 4, 4}, rhythm: true, slowCB: true})},
 		{Name: "next-message-as-callback-returns", Bound: 2, BoundT: 3, Body: c20Body(c20Opts{sizes: []int{4, 4, 4}, rhythm: true})},
+		{Name: "two-shm-reuse-slow-callback", Bound: 1, BoundT: 2, Body: c20Body(c20Opts{sizes: []int{5, 6}, reuse: true, slowCB: true})},
+		{Name: "three-shm-reuse-lazy-writer", Bound: 2, BoundT: 3, Body: c20Body(c20Opts{sizes: []int{4, 4, 4}, reuse: true, lazyClient: true})},
 		{Name: "local-close-anytime-chunked", Bound: 1, BoundT: 2, Body: c20Body(c20Opts{sizes: []int{8, 6}, chunk: 3, localClose: true})},
 	})
 }
